@@ -160,6 +160,118 @@ class CompoundIntervalFormMinus(CompoundIntervalForm):
                                                 else r[0][2] is i.strand.reverse())
 
 
+class CompoundUnary(Case):
+    """one-operand operations of CompoundInterval, block count fixed (2-3 blocks that may overlap, nest or touch), ALL
+    integer coordinates and arguments: the result's position set is the stated function of the operand's position set
+    A and its bounds lo = smallest start, hi = LARGEST end:
+      gap_list / gaps_location : [lo, hi) minus A;    extend_absolute(l, r) : A + [lo-l, lo) + [hi, hi+r)
+      extend_relative(u, d)    : extend_absolute with the arguments swapped on the minus strand
+      shift_position(k)        : A shifted by k;       reverse : A reflected inside [lo, hi), strand reversed
+      merge_overlapping        : A, no two blocks overlapping.
+    Refusals are the documented ones (ValueError for a negative extension, InvalidPositionException when the result
+    would start below 0, InvalidStrandException for a relative extension of an unstranded location)."""
+    props = ("C02", "C19")
+
+    def __init__(self, op, n, tier="quick"):
+        self.op, self.n, self.tier = op, n, tier
+        self.func = COMPOUND + "." + op
+        self.name = f"CompoundInterval.{op}[{n} blocks that may overlap or nest, all coordinates]"
+        A = lambda i, p: cov(i.as_, i.ae, p)  # noqa
+        lo = lambda i: i.as_[0]  # noqa  (sorted by start)
+        hi = lambda i: _maxl(i.ae)  # noqa
+        gaps = lambda i: And(lo(i) <= i.p, i.p < hi(i), Not(A(i, i.p)))  # noqa
+        if op == "gap_list":
+            self.call = "a.gap_list()"
+            self.ensures = {
+                "position-set-is-span-minus-blocks": lambda i, r: Iff(Or(False, *[covers_pos(g, i.p) for g in r]), gaps(i)),
+                "gaps-non-empty-ordered-single-intervals": lambda i, r: And(True, *(
+                    [And(class_name(g) == "SingleInterval", g.start < g.end) for g in r] +
+                    # listed 5' -> 3' (scan_blocks order): ascending on the plus strand, descending on the minus strand
+                    [(g2.end < g1.start) if i.minus else (g1.end < g2.start) for g1, g2 in zip(list(r), list(r)[1:])])),
+            }
+        elif op == "gaps_location":
+            self.call = "a.gaps_location()"
+            self.ensures = {"position-set-is-span-minus-blocks": lambda i, r: Iff(covers_pos(r, i.p), gaps(i)),
+                            "well-formed": lambda i, r: wf_result(r, optimized=False)}
+        elif op == "extend_absolute":
+            self.call = "a.extend_absolute(x, y)"
+            self.raises = {"ValueError": lambda i: Or(i.x < 0, i.y < 0),
+                           "InvalidPositionException": lambda i: And(i.x >= 0, i.y >= 0, i.x > lo(i))}
+            self.ensures = {"position-set": lambda i, r: Iff(covers_pos(r, i.p), Or(
+                A(i, i.p), And(lo(i) - i.x <= i.p, i.p < lo(i)), And(hi(i) <= i.p, i.p < hi(i) + i.y))),
+                "normalised": lambda i, r: wf_result(r)}
+        elif op == "extend_relative":
+            self.call = "a.extend_relative(x, y)"
+            left = lambda i: i.x if i.plus else i.y  # noqa
+            right = lambda i: i.y if i.plus else i.x  # noqa
+            self.raises = {"InvalidStrandException": lambda i: i.unstranded,
+                           "ValueError": lambda i: And(not i.unstranded, Or(i.x < 0, i.y < 0)),
+                           "InvalidPositionException": lambda i: And(not i.unstranded, i.x >= 0, i.y >= 0, left(i) > lo(i))}
+            self.ensures = {"position-set": lambda i, r: Iff(covers_pos(r, i.p), Or(
+                A(i, i.p), And(lo(i) - left(i) <= i.p, i.p < lo(i)), And(hi(i) <= i.p, i.p < hi(i) + right(i)))),
+                "normalised": lambda i, r: wf_result(r)}
+        elif op == "shift_position":
+            self.call = "a.shift_position(x)"
+            self.raises = {"InvalidPositionException": lambda i: lo(i) + i.x < 0}
+            self.ensures = {"position-set-shifted": lambda i, r: Iff(covers_pos(r, i.p), A(i, i.p - i.x)),
+                            "blocks-and-strand-kept": lambda i, r: And(
+                                len(blocks_of(r)) == self.n, _same_strand(r, i.a), wf_result(r, optimized=False))}
+        elif op == "reverse":
+            self.call = "a.reverse()"
+            self.ensures = {"position-set-reflected-in-the-span": lambda i, r: Iff(
+                covers_pos(r, i.p), A(i, lo(i) + hi(i) - 1 - i.p)),
+                "span-kept-strand-reversed": lambda i, r: And(r.start == lo(i), r.end == hi(i), _reversed_strand(r, i.a))}
+        elif op == "merge_overlapping":
+            self.call = "a.merge_overlapping()"
+            self.ensures = {"position-set-kept": lambda i, r: Iff(covers_pos(r, i.p), A(i, i.p)),
+                            "no-two-blocks-overlap": lambda i, r: And(True, *[
+                                e1 <= s2 for (s1, e1), (s2, e2) in zip(blocks_of(r), blocks_of(r)[1:])]),
+                            "strand-kept": lambda i, r: _same_strand(r, i.a)}
+        else:
+            raise ValueError(op)
+
+    def inputs(self, S):
+        # gaps are "ordered relative to the strand": precondition directional strand (an unstranded location with two
+        # separate blocks is refused with InvalidStrandException by scan_blocks - covered by the C19 API sweep)
+        strand = strand_of(S, "strand", directed=self.op in ("gap_list", "gaps_location"))
+        a, as_, ae = loc(S, "a", self.n, strand, allow_overlap=True)
+        name = strand.members[strand.idx][0] if hasattr(strand, "members") else strand.name
+        return NS(a=a, as_=as_, ae=ae, p=S.int("p"), x=S.int("x"), y=S.int("y"), plus=name == "PLUS",
+                  minus=name == "MINUS", unstranded=name == "UNSTRANDED")
+
+    def samples(self, rng):
+        d = sample_blocks(rng, "a", self.n, lo=2)
+        if rng.random() < 0.5 and self.n >= 2:  # nest / overlap the second block
+            d["a_ends"][0] = d["a_ends"][1] + rng.choice([-1, 0, 2]) if d["a_ends"][1] - 1 > d["a_starts"][0] else d["a_ends"][0]
+        d.update(strand=rng.choice(["PLUS", "MINUS"] + ([] if self.op in ("gap_list", "gaps_location") else ["UNSTRANDED"])),
+                 p=rng.randint(0, 16), x=rng.randint(-1, 4), y=rng.randint(-1, 4))
+        return d
+
+    def observe(self, r):
+        if isinstance(r, (list, tuple)):
+            return [obs_loc(g) for g in r]
+        return obs_loc(r)
+
+
+def _maxl(xs):
+    m = xs[0]
+    for x in xs[1:]:
+        m = Max(m, x)
+    return m
+
+
+def _strand_name(st):
+    return st.members[st.idx][0] if hasattr(st, "members") else st.name
+
+
+def _same_strand(r, a):
+    return _strand_name(r.strand) == _strand_name(a.strand)
+
+
+def _reversed_strand(r, a):
+    return _strand_name(r.strand) == {"PLUS": "MINUS", "MINUS": "PLUS", "UNSTRANDED": "UNSTRANDED"}[_strand_name(a.strand)]
+
+
 def isect_size(as_, ae, bs, be):
     return sum((Max(0, Min(e1, e2) - Max(s1, s2)) for s1, e1 in zip(as_, ae) for s2, e2 in zip(bs, be)), 0)
 
@@ -246,3 +358,7 @@ CASES += [RelativeLocationForm(1, 2), RelativeLocationForm(2, 2), RelativeLocati
           RelativeLocationForm(2, 1, overlapping_query=True), RelativeLocationForm(2, 2, overlapping_query=True),
           RelativeLocationRefusal(1, 2), RelativeLocationRefusal(2, 2),
           RelativeLocationForm(1, 3, loc_empties=True), PairAlgebra(3, 1, "intersection", empties=True)]
+CASES += [CompoundUnary(op, 2) for op in ("gap_list", "gaps_location", "extend_absolute", "extend_relative", "shift_position",
+                                          "reverse", "merge_overlapping")]
+CASES += [CompoundUnary(op, 3, tier="thorough") for op in ("gap_list", "gaps_location", "extend_absolute", "shift_position",
+                                                           "reverse", "merge_overlapping")]
